@@ -527,7 +527,8 @@ def specFst (design exp : String) (dupsTxt : String := "") : String :=
 
 /-- the observation of a design's denotation -/
 def observe (d : Denotation) : Option String :=
-  treeSWith (obsOps d) fun l _ => s!"V({l.label},{obsChanges d.times (d.changes.getD l.sig [])})"
+  (treeSWith (obsOps d) fun l _ => s!"V({l.label},{obsChanges d.times (d.changes.getD l.sig [])})").map fun t =>
+    t ++ "|tt=" ++ ",".intercalate (d.times.map toString)
 
 def specObserve (design : String) : String :=
   match parseDesign design with
